@@ -8,7 +8,6 @@ use crate::emitter::FormattedFile;
 
 /// Diff / report construction (rustfmt_diff.rs, emitter/*.rs).
 pub mod diff {
-    use super::*;
     use crate::rustfmt_diff::{self, DiffLine, ModifiedLines};
 
     /// 0 = Left (only in `a`), 1 = Both, 2 = Right (only in `b`).
@@ -83,3 +82,90 @@ pub fn config_with_emit_mode(mode: EmitMode) -> Config {
 
 /// Range algebra and `FileLines` queries (config/file_lines.rs).
 pub use crate::config::file_lines::verif as file_lines;
+
+/// Parse `text` as a crate (stdin input) and run `f` with the AST and a
+/// top-level `RewriteContext`, inside a rustc session as `Session::format` does.
+pub(crate) fn with_crate<R>(
+    text: &str,
+    config: &Config,
+    f: impl FnOnce(&rustc_ast::ast::Crate, &crate::rewrite::RewriteContext<'_>) -> R,
+) -> Option<R> {
+    use crate::parse::parser::Parser;
+    use crate::parse::session::ParseSess;
+    rustc_span::create_session_if_not_set_then(config.edition().into(), |_| {
+        let mut psess = ParseSess::new(config).ok()?;
+        let krate = Parser::parse_crate(crate::Input::Text(text.to_owned()), &psess).ok()?;
+        psess.set_silent_emitter();
+        let snippet_provider = psess.snippet_provider(krate.spans.inner_span);
+        let visitor = crate::visitor::FmtVisitor::from_psess(
+            &psess,
+            config,
+            &snippet_provider,
+            crate::FormatReport::new(),
+        );
+        let context = visitor.get_context();
+        Some(f(&krate, &context))
+    })
+}
+
+fn ord_code(o: std::cmp::Ordering) -> u8 {
+    match o {
+        std::cmp::Ordering::Less => 0,
+        std::cmp::Ordering::Equal => 1,
+        std::cmp::Ordering::Greater => 2,
+    }
+}
+
+/// Comparators used for reordering (sort.rs, reorder.rs, imports.rs).
+pub mod order {
+    use super::*;
+    use rustc_ast::ast;
+
+    /// 0 = Less, 1 = Equal, 2 = Greater
+    pub fn version_sort(a: &str, b: &str) -> u8 {
+        ord_code(crate::sort::version_sort(a, b))
+    }
+
+    /// `compare_items` on every ordered pair of the top-level items of `text`
+    /// (which must all be `mod x;` items or all be `extern crate` items).
+    pub fn compare_items_matrix(text: &str, config: &Config) -> Option<Vec<Vec<u8>>> {
+        with_crate(text, config, |krate, context| {
+            let same_kind = |a: &ast::Item, b: &ast::Item| {
+                matches!(
+                    (&a.kind, &b.kind),
+                    (ast::ItemKind::Mod(..), ast::ItemKind::Mod(..))
+                        | (ast::ItemKind::ExternCrate(..), ast::ItemKind::ExternCrate(..))
+                )
+            };
+            krate
+                .items
+                .iter()
+                .map(|a| {
+                    krate
+                        .items
+                        .iter()
+                        .map(|b| {
+                            if same_kind(a, b) {
+                                ord_code(crate::reorder::verif::compare(a, b, context))
+                            } else {
+                                3
+                            }
+                        })
+                        .collect()
+                })
+                .collect()
+        })
+    }
+}
+
+/// Build a configuration from `key = value` pairs (as `--config` does).
+pub fn config_from_pairs(pairs: &[(String, String)]) -> Result<Config, String> {
+    let mut c = Config::default();
+    for (k, v) in pairs {
+        if !Config::is_valid_key_val(k, v) {
+            return Err(format!("invalid key=val pair: `{k}={v}`"));
+        }
+        c.override_value(k, v);
+    }
+    Ok(c)
+}
